@@ -163,13 +163,46 @@ def res_replacements():
     return _RES_REPL
 
 
+_STD_BOND_ATOMS = None
+
+
+def std_bond_atoms():
+    """residue name -> atom names that create_standard_bonds would bond (from residues.xml)."""
+    global _STD_BOND_ATOMS
+    if _STD_BOND_ATOMS is None:
+        import xml.etree.ElementTree as etree
+        import mdtraj.formats.pdb as pdbmod
+        tree = etree.parse(os.path.join(os.path.dirname(pdbmod.__file__), "data", "residues.xml"))
+        _STD_BOND_ATOMS = {}
+        for res in tree.getroot().findall("Residue"):
+            names = set()
+            for b in res.findall("Bond"):
+                names.update(b.attrib[k].lstrip("-+") for k in ("from", "to"))
+            _STD_BOND_ATOMS[res.attrib["name"]] = names
+    return _STD_BOND_ATOMS
+
+
 def pdb_ok(t):
-    """Guards of the PDB runs (see ASSUMPTIONS in harness/props/C04.py)."""
+    """Guards of the PDB runs of the model stream (see ASSUMPTIONS in harness/props/C04.py): the reader must
+    neither rename anything nor regenerate standard bonds.  A residue may carry a standard name (ALA, HOH, DA, ...)
+    as long as it is the canonical spelling and none of its atoms has a name the reader's tables know."""
+    from mdtraj.formats.pdb.pdbfile import PDBTrajectoryFile
     if t.n_atoms < 1:
         return False
+    res_replacements()
+    rrep, arep = PDBTrajectoryFile._residueNameReplacements, PDBTrajectoryFile._atomNameReplacements
     for r in t.residues:
-        if r.n_atoms == 0 or str(r.name)[:3].strip() in res_replacements() or str(r.name) in res_replacements():
+        name = str(r.name)
+        if r.n_atoms == 0:
             return False
+        short = name[:3]
+        if short in rrep or short in arep or short.strip() in rrep:
+            if len(name) > 3 or rrep.get(short, short) != short:
+                return False
+            known = set(arep.get(short, {})) | std_bond_atoms().get(short, set())
+            for a in r.atoms:
+                if str(a.name)[:4] in known or str(a.name) in known or str(a.name) == "SG":
+                    return False
         if not (-9998 < int(r.resSeq) < 9999 or int(r.resSeq) == 10005):
             return False
     return True
@@ -271,8 +304,80 @@ def run_case(case, tmp):
     return {"ops": done, "obs": [status, dumps, eqm, hm], "errors": errors}
 
 
+# ---------------------------------------------------------------------------- PDB bond-graph oracle
+STD_WRITER = ["ALA", "ASN", "CYS", "GLU", "HIS", "LEU", "MET", "PRO", "THR", "TYR", "ARG", "ASP", "GLN", "GLY", "ILE",
+              "LYS", "PHE", "SER", "TRP", "VAL", "A", "G", "C", "U", "I", "DA", "DG", "DC", "DT", "DI", "HOH"]
+
+
+def pdb_tables(std_names, hetero_candidates):
+    """Atom names of standard residues taken from mdtraj's own residues.xml (the names create_standard_bonds
+    knows), and the hetero residue names that the reader will not rename."""
+    import xml.etree.ElementTree as etree
+    import mdtraj.formats.pdb as pdbmod
+    tree = etree.parse(os.path.join(os.path.dirname(pdbmod.__file__), "data", "residues.xml"))
+    atoms = {}
+    for res in tree.getroot().findall("Residue"):
+        if res.attrib["name"] in std_names:
+            names = []
+            for b in res.findall("Bond"):
+                for k in ("from", "to"):
+                    n = b.attrib[k]
+                    if not n.startswith(("-", "+")) and n not in names:
+                        names.append(n)
+            atoms[res.attrib["name"]] = names
+    repl = res_replacements()
+    hetero = [h for h in hetero_candidates if h not in repl and h not in STD_WRITER and h not in atoms]
+    return {"std_atoms": atoms, "hetero_ok": hetero}
+
+
+def graph_of(t):
+    return sorted({tuple(sorted((int(b.atom1.index), int(b.atom2.index)))) for b in t.bonds})
+
+
+def run_pdbgraph(spec, tmp):
+    """Build the topology of the spec, add the standard bonds (public create_standard_bonds) and the listed
+    extra bonds, save to .pdb, load, and report both bond graphs and both atom listings."""
+    t = md.Topology()
+    for ch in spec["chains"]:
+        c = t.add_chain(ch["id"]) if ch["id"] is not None else t.add_chain()
+        for name, resseq, anames in ch["res"]:
+            r = t.add_residue(name, c, resseq)
+            for an in anames:
+                sym = an if an in ("ZN", "NA", "CL") else an[0]
+                t.add_atom(an, elem.get_by_symbol(sym.capitalize() if len(sym) == 2 else sym), r)
+    if spec.get("std_bonds", True):
+        t.create_standard_bonds()
+    for i, j in spec["bonds"]:
+        t.add_bond(t.atom(i), t.atom(j))
+    xyz = np.zeros((1, t.n_atoms, 3), dtype=np.float32)
+    xyz[0, :, 0] = np.arange(t.n_atoms) * 1.0          # 1 nm apart: no distance-based disulfide detection on load
+    fn = os.path.join(tmp, "g.pdb")
+    md.Trajectory(xyz, t).save_pdb(fn, ter=bool(spec["ter"]))
+    u = md.load_pdb(fn, standard_names=bool(spec["standard_names"])).topology
+    listing = lambda top: [[str(a.name), str(a.residue.name), int(a.residue.resSeq), int(a.residue.chain.index)] for a in top.atoms]
+    return {"before": graph_of(t), "after": graph_of(u), "atoms_before": listing(t), "atoms_after": listing(u)}
+
+
 def main():
     payload = json.load(sys.stdin)
+    if "pdb_tables" in payload or "pdbgraph" in payload:
+        out = {}
+        if "pdb_tables" in payload:
+            out["tables"] = pdb_tables(*payload["pdb_tables"])
+        if "pdbgraph" in payload:
+            tmp = tempfile.mkdtemp(prefix="c04pdb-", dir=os.getcwd())
+            try:
+                res = []
+                for spec in payload["pdbgraph"]:
+                    try:
+                        res.append(run_pdbgraph(spec, tmp))
+                    except Exception as e:
+                        res.append({"error": "%s: %s" % (type(e).__name__, str(e)[:200])})
+                out["pdbgraph"] = res
+            finally:
+                shutil.rmtree(tmp, ignore_errors=True)
+        print(json.dumps(out))
+        return
     tmp = tempfile.mkdtemp(prefix="c04impl-", dir=os.getcwd())
     try:
         out = [run_case(c, tmp) for c in payload["cases"]]
